@@ -426,8 +426,8 @@ def judge(spec, scenario, history):
         hdr = [v for k, v in a["md"] if k.lower() == c06.HDR]
         import urllib.parse
         got_h = dict(urllib.parse.parse_qsl(hdr[0], keep_blank_values=True)) if hdr else {}
-        if got_h != {key: op["request"][key]} or len(hdr) != 1:
-            return V("routing_header", f"x-goog-request-params={hdr}; expected exactly one header {key}={op['request'][key]!r}")
+        if got_h != {key: op["request"].get(key, "")} or len(hdr) != 1:
+            return V("routing_header", f"x-goog-request-params={hdr}; expected exactly one header {key}={op['request'].get(key, '')!r}")
         if (op.get("call") or {}).get("metadata"):
             _bump(probes, "mixin_call_with_caller_metadata")
             tag = [v for k, v in a["md"] if k == "x-caller-tag"]
